@@ -6,14 +6,14 @@ modules decide what the text looks like and what the stamps look like.
 """
 
 
-def srt_doc(cues, eol="\n", trailing_blank=1, first_index=1):
-    """cues: [(start_text, end_text, [payload lines])]"""
+def srt_doc(cues, eol="\n", trailing_blank=1, first_index=1, between=None):
+    """cues: [(start_text, end_text, [payload lines])]; between: blank lines after each cue"""
     out = []
     for i, (a, b, lines) in enumerate(cues):
         out.append(str(first_index + i))
         out.append(f"{a} --> {b}")
         out.extend(lines)
-        out.append("")
+        out.extend([""] * (between[i % len(between)] if between else 1))
     s = eol.join(out)
     return s + eol * max(0, trailing_blank - 1)
 
